@@ -39,6 +39,14 @@ class Ctx:
     def prefetch(self, cfgs):
         self.facts_dir(cfgs)
 
+    def sentmodel(self, cfg):
+        if not hasattr(self, "_sm"):
+            self._sm = {}
+        if cfg not in self._sm:
+            from .rules.sent_common import SentModel
+            self._sm[cfg] = SentModel(self.facts(cfg))
+        return self._sm[cfg]
+
     def layouts(self, cfg):
         if cfg not in self._layouts:
             self._layouts[cfg] = extract.extract_layouts(self.facts(cfg))
